@@ -111,13 +111,20 @@ def load_known():
     return json.load(open(p))["findings"]
 
 
+def relevant(pid, check):
+    """check names are '<comma separated property ids>|<name>'; untagged checks count for every property"""
+    if "|" not in check:
+        return True
+    return pid in check.split("|", 1)[0].split(",")
+
+
 def match_known(known, pid, harness, check, cfg):
     for k in known:
         if k.get("status") != "open" or k["property"] != pid:
             continue
         if k.get("harness") not in (None, harness):
             continue
-        if not check.startswith(k["check"]):
+        if k["check"] not in check:
             continue
         want = k.get("cfg", {})
         if all(str(cfg.get(a)) == str(b) for a, b in want.items()):
@@ -225,6 +232,8 @@ def main():
             if why not in allowed_aborts:
                 inconclusive.append("%s: %d path(s) abandoned: %s" % (label, n, why))
         for name, st in res["checks"].items():
+            if not relevant(pid, name):
+                continue
             ct = check_table.setdefault(name, dict(reached=0, discharged=0, violated=0, unknown=0))
             for k in ct:
                 ct[k] += st[k]
@@ -233,11 +242,16 @@ def main():
             if st["unknown"]:
                 inconclusive.append("%s: check %s: %d unknown" % (label, name, st["unknown"]))
         for want in j.get("expect", []):
-            if not any(n.startswith(want) and st["reached"] > 0 for n, st in res["checks"].items()):
+            cands = [(n, st) for n, st in res["checks"].items() if want in n]
+            if cands and not any(relevant(pid, n) for n, _ in cands):
+                continue   # this expectation belongs to another property served by the same job
+            if not any(relevant(pid, n) and st["reached"] > 0 for n, st in cands):
                 inconclusive.append("%s: VACUOUS: expected check '%s' never reached" % (label, want))
         for s in res["samples"][:1]:
             samples.append({"job": label, "route": "S", "sample": s})
         for v in res["violations"]:
+            if not relevant(pid, v["check"]):
+                continue
             tot["replays"] += 1
             tot["confirmed"] += 1 if v["confirmed"] else 0
             violations.append((j, label, v))
